@@ -59,6 +59,32 @@ def main(argv):
                         da, db = a.get("decisions") or [], b.get("decisions") or []
                         fd = next((i for i in range(min(len(da), len(db))) if da[i] != db[i]), min(len(da), len(db)))
                         print("  first differing decision %d: A=%s B=%s" % (fd, da[fd] if fd < len(da) else None, db[fd] if fd < len(db) else None))
+            # replay equivalence: a strict replay from the run's own case + decision list (what a
+            # replay file holds) must be the same execution as the run that produced it
+            rbad = 0
+            rjobs = []
+            rp_dir = scratch.dir if hasattr(scratch, "dir") else os.path.dirname(binary)
+            with concurrent.futures.ThreadPoolExecutor(max_workers=chk.JOBS) as ex:
+                for seed, runs in by_seed.items():
+                    r = runs[0][2]
+                    if r.get("discard") or r.get("infra") or not r.get("decisions"):
+                        continue
+                    path = os.path.join(rp_dir, "selfreplay-%s-%d.json" % (prop, seed))
+                    json.dump({"property": prop, "class": "", "msg": "", "digest": "", "case": r["case"], "decisions": r["decisions"]}, open(path, "w"))
+                    rjobs.append((seed, r, path, ex.submit(chk.run_worker, binary, ["-sim.replay", path, "-sim.full"], 180, None)))
+                for seed, r, path, f in rjobs:
+                    res, crash = f.result()
+                    os.unlink(path)
+                    rr = res[-1] if res else {}
+                    same = rr.get("digest") == r.get("digest") and rr.get("trace_hash") == r.get("trace_hash") and json.dumps(rr.get("violations"), sort_keys=True) == json.dumps(r.get("violations"), sort_keys=True)
+                    if not same:
+                        rbad += 1
+                        if rbad <= 3:
+                            print("selftest %s: seed %d: strict replay of its own decisions differs from the run: digest %s vs %s; violations %s vs %s; %s" % (
+                                prop, seed, rr.get("digest"), r.get("digest"), rr.get("violations"), r.get("violations"), (crash or {}).get("stderr", "")[-300:]))
+            print("selftest %s: %d strict replays of own decisions: %d differ" % (prop, len(rjobs), rbad), flush=True)
+            if rbad:
+                rc = 2
             print("selftest %s: %d seeds x %d processes (GOMAXPROCS %s): %d diverged, label ties %d, %.1fs" % (
                 prop, len(by_seed), len(procs), procs, bad, ties, time.time() - t0), flush=True)
             if bad:
